@@ -128,15 +128,15 @@ func propC03(c *Ctx) {
 		})
 	}
 
-	h5 := c.Rule("H5", "K1/K5 site tables", "stray segments: one RST that acknowledges them; RSTs are swallowed", 4)
+	h5 := c.Rule("H5", "K1/K5 site tables", "stray segments: one RST that acknowledges them; RSTs are swallowed", 3)
 	if fn := c.Fn(h5, "tcp.replyWithReset"); fn != nil {
 		c.CheckSites(h5, fn, []SiteSpec{
 			{Kind: "call", Target: "tcp.sendTCP", Args: []string{"&$0.route", "$0.id", "zero", "*", "20", "phi{$0.ackNumber | 0}", "seqnum.Value.Add($0.sequenceNumber, (*tcp.segment).logicalLen($0))", "0", "nil"}, Guards: []string{}, Exact: true, N: 1,
 				Why: "RST|ACK (20), seq = the segment's ack number or 0, ack = seq + logical length, window 0, on the route/id of the segment being answered"},
 		})
 		// seq is ackNumber exactly when the ACK flag is set
-		for _, e := range CondEdges(fn) {
-			if strings.Contains(e.Atom, "flagIsSet($0, 16)") {
+		for a := range AllAtoms(fn) {
+			if strings.Contains(a, "flagIsSet($0, 16)") {
 				c.Ok(h5, FuncName(fn)+"/seq-depends-on-ack-flag", c.P.Pos(fn.Pos()), "the phi is selected by the ACK flag")
 			}
 		}
